@@ -170,6 +170,10 @@ def judge(chk, spec, res):
     # been asked gracefully (and was therefore able to report)
     stop_dur = [e['dur'] for e in evs if e.get('ev') == 'return' and e.get('name') == 'server.terminate']
     graceful_for_all = bool(stop_dur) and stop_dur[0] < 0.8 * (spec.get('term_timeout') or 1)
+    capable = ('coop', 'idle-persistent', 'busy-persistent', 'in-context', 'idle-in-context', 'finished', 'empty-context')
+    if spec['how'] == 'terminate' and (spec.get('term_timeout') or 0) >= 10 and stop_dur and not graceful_for_all and all(c in capable for c in spec['children']):
+        # nothing keeps this server from leaving by itself, yet terminate() had to wait for its force path
+        probs.append('server-did-not-act-on-the-terminate-request')
     for e in [e for e in evs if e.get('ev') == 'worker']:
         chk.count('parent_side_workers_observed')
         st = e['state']
@@ -192,7 +196,7 @@ def judge(chk, spec, res):
             continue
         et = e['error']['type'] if e['error'] else None
         chk.count('error_%s_%s_%s' % (st, spec['how'], et))
-        if spec['how'] == 'terminate' and graceful_for_all and st in ('coop', 'idle-persistent', 'busy-persistent', 'in-context', 'idle-in-context') and et != 'WorkerTerminatedError' and not spec.get('startup_race'):
+        if spec['how'] == 'terminate' and graceful_for_all and st in ('coop', 'idle-persistent', 'busy-persistent', 'in-context', 'idle-in-context') and et != 'WorkerTerminatedError' and (not spec.get('startup_race') or (spec.get('term_timeout') or 0) >= 10):
             probs.append('no-WorkerTerminatedError-from-reporting-child:%s:error=%s' % (st, et))
     late = [e for e in evs if e.get('ev') == 'late_worker']
     if late and late[0]['still_blocked']:
@@ -246,7 +250,8 @@ def run(tier):
     pick = own_lines if thorough else own_lines[::3] + own_lines[-4:]
     for e in pick:
         for how in (('terminate', 'sigterm') if thorough else (r.choice(['terminate', 'sigterm']),)):
-            race.append(dict(children=[r.choice(['coop', 'idle-persistent'])], how=how, startup_race=True, k=e['i'], at=lpi.at_of(trace, e['i']), line=e['line']))
+            race.append(dict(children=[r.choice(['coop', 'idle-persistent'])], how=how, startup_race=True, k=e['i'], at=lpi.at_of(trace, e['i']), line=e['line'],
+                             term_timeout=(10 if how == 'terminate' else None)))
 
     def one(ij):
         i, sp = ij
